@@ -1,4 +1,4 @@
-/* user configuration for the `usererr` build flavour: a user error list whose descriptions contain double quotes */
+/* user configuration for the `usererr` build flavour: a user error list whose descriptions contain double quotes and reach / exceed the 255 characters a response string may hold */
 #ifndef SCPI_USER_CONFIG_H
 #define SCPI_USER_CONFIG_H
 #define USE_USER_ERROR_LIST 1
@@ -7,5 +7,9 @@
     X(SCPI_ERROR_USER_QUOTE, 102, "Expected closing \"") \
     X(SCPI_ERROR_USER_PLAIN, 103, "Plain user error") \
     X(SCPI_ERROR_USER_QUOTES, -1001, "\"\"\"") \
+    X(SCPI_ERROR_USER_D253, 105, "D253 aaaaaaaaaaaaaaaaaaaaaaaaaaaaaaaaaaaaaaaaaaaaaaaaaaaaaaaaaaaaaaaaaaaaaaaaaaaaaaaaaaaaaaaaaaaaaaaaaaaaaaaaaaaaaaaaaaaaaaaaaaaaaaaaaaaaaaaaaaaaaaaaaaaaaaaaaaaaaaaaaaaaaaaaaaaaaaaaaaaaaaaaaaaaaaaaaaaaaaaaaaaaaaaaaaaaaaaaaaaaaaaaaaaaaaaaaaaaaaaaaaaaaaaa") \
+    X(SCPI_ERROR_USER_D254, 106, "D254 bbbbbbbbbbbbbbbbbbbbbbbbbbbbbbbbbbbbbbbbbbbbbbbbbbbbbbbbbbbbbbbbbbbbbbbbbbbbbbbbbbbbbbbbbbbbbbbbbbbbbbbbbbbbbbbbbbbbbbbbbbbbbbbbbbbbbbbbbbbbbbbbbbbbbbbbbbbbbbbbbbbbbbbbbbbbbbbbbbbbbbbbbbbbbbbbbbbbbbbbbbbbbbbbbbbbbbbbbbbbbbbbbbbbbbbbbbbbbbbbbbbbbbbbb") \
+    X(SCPI_ERROR_USER_D255, 107, "D255 cccccccccccccccccccccccccccccccccccccccccccccccccccccccccccccccccccccccccccccccccccccccccccccccccccccccccccccccccccccccccccccccccccccccccccccccccccccccccccccccccccccccccccccccccccccccccccccccccccccccccccccccccccccccccccccccccccccccccccccccccccccccccc") \
+    X(SCPI_ERROR_USER_D300, 108, "An operator hint that is longer than the whole response may be: \"check the interlock\", then then then then then then then then then then then then then then then then then then then then then then then then then then then then then then then then then then then then then then then then then then then then then call service") \
     X(SCPI_ERROR_USER_LONG, 104, "A long user error description with \"quoted\" words that approaches the limit of the response string when device dependent text is attached to it: \"aaaaaaaaaaaaaaaaaaaaaaaaaaaaaaaaaaaaaaaaaaaaaaaaaaaaaaaaaaaaaaaaaaaaaaaaaaaaaaaaaaaaaaaa\"")
 #endif
